@@ -64,6 +64,9 @@ def plain_values(tier):
     for k in KEYS:
         out += [{k: 1}, {k: None, "a": "x"}, {"a": {k: [1]}}, [{k: "a"}, {k: "a", "z": 0}]]
     out.append({k: i for i, k in enumerate(KEYS) if k is not True and k != 0 or k is None})
+    # text that spells a marker: the strings "..." / "Nil" as key, as value, as both
+    out += ["...", {"...": "..."}, {"a": 1, "...": "..."}, [{"...": "..."}, "..."], {"...": 1}, {"a": "..."},
+            {"Nil": "Nil"}, {"optional('a')": 1}]
     if tier == "thorough":
         rep3 = [None, 1, "a"] + d2[::97]
         out += containers(rep3, keys=("", (1, 2)))
